@@ -16,6 +16,8 @@ CONSTANTS
   PForms <- NoCatalog
   Containers <- NoCatalog
   OvKVals <- TrOv
+  SForms <- NoCatalog
+  KeySortSeq <- TrSort
 INVARIANT Verdict
 INVARIANT PolyAgreesWithFold
 INVARIANT InactiveNotInExponent
